@@ -71,7 +71,8 @@ theorem compile_legal {rx fs api} (hl : nsLexical fs = true) (h : compileCore rx
                 cases d with
                 | imp _ => rfl
                 | patch _ => rfl
-                | annot _ => rfl
+                | annot _ _ => rfl
+                | aliasAnnots _ _ => rfl
                 | annotType _ => rfl
                 | type td =>
                   have hd : td ∈ typeDecls (declsOf fs ns) := mem_typeDecls.mpr hmem
